@@ -169,7 +169,8 @@ def kani_cmd(harnesses, playback=False, jobs=6):
     if playback:
         cmd += ['-Z', 'concrete-playback', '--concrete-playback=print']
     if len(harnesses) > 1:
-        cmd += ['-j', str(jobs), '--output-format=terse']
+        # up to 6 harnesses run side by side; more than that (thorough tier: 16 Buffer harnesses, several GB each) 4 at a time
+        cmd += ['-j', str(jobs if len(harnesses) <= 7 else 4), '--output-format=terse']
     for h in harnesses:
         cmd += ['--harness', h]
     return cmd
